@@ -7,38 +7,61 @@ From Bignums Require Import BigZ BigQ.
 From BV Require Import AssemblyB.Defs AssemblyB.Model.
 Import ListNotations.
 
-(* ---- complex rationals ---------------------------------------------------------------------------- *)
-Definition CQ : Type := (bigQ * bigQ)%type.
-Definition cq0 : CQ := (0%bigQ, 0%bigQ).
-Definition cq1 : CQ := (1%bigQ, 0%bigQ).
-Definition cq_add (a b : CQ) : CQ := (BigQ.add_norm (fst a) (fst b), BigQ.add_norm (snd a) (snd b)).
-Definition cq_sub (a b : CQ) : CQ := (BigQ.sub_norm (fst a) (fst b), BigQ.sub_norm (snd a) (snd b)).
-Definition cq_opp (a : CQ) : CQ := (BigQ.opp (fst a), BigQ.opp (snd a)).
-Definition cq_mul (a b : CQ) : CQ :=
-  (BigQ.sub_norm (BigQ.mul_norm (fst a) (fst b)) (BigQ.mul_norm (snd a) (snd b)),
-   BigQ.add_norm (BigQ.mul_norm (fst a) (snd b)) (BigQ.mul_norm (snd a) (fst b))).
-Definition cq_inv (a : CQ) : CQ :=
-  let n := BigQ.add_norm (BigQ.mul_norm (fst a) (fst a)) (BigQ.mul_norm (snd a) (snd a)) in
-  let i := BigQ.inv_norm n in
-  (BigQ.mul_norm (fst a) i, BigQ.opp (BigQ.mul_norm (snd a) i)).
-Definition CQops : ops CQ := mk_ops cq0 cq1 cq_add cq_mul cq_sub cq_opp cq_inv.
-Definition cq_of (q : bigQ) : CQ := (q, 0%bigQ).
-
-(* square root of a non-negative rational to relative accuracy 1e-30 (floor integer square root) *)
-Definition bq_sqrt (q : bigQ) : bigQ :=
-  match BigQ.red q with
-  | BigQ.Qz z => let s := (10 ^ 30)%bigZ in
-      BigQ.red (BigQ.Qq (BigZ.sqrt (z * s * s)) (BigN.of_N (Z.to_N (BigZ.to_Z s))))
-  | BigQ.Qq n d =>
-      let s := (10 ^ 30)%bigZ in
-      let dz := BigZ.Pos d in
-      BigQ.red (BigQ.Qq (BigZ.sqrt (n * dz * s * s)) (BigN.mul d (BigN.of_N (Z.to_N (BigZ.to_Z s)))))
+(* ---- exact dyadic numbers m * 2^e and complex pairs of them ------------------------------------------ *)
+(* Every input (doubles of the implementation, surrogate coefficients) is dyadic; +, -, * are exact and need no
+   gcd.  1/x and sqrt x are rounded (relative error < 2^-200): they only occur where the implementation itself
+   divides / takes square roots in floating point, and the comparison tolerance is 1e-11. *)
+Definition dy : Type := (bigZ * bigZ)%type.
+Definition dy0 : dy := (0%bigZ, 0%bigZ).
+Definition dy1 : dy := (1%bigZ, 0%bigZ).
+Definition dy_add (a b : dy) : dy :=
+  let (ma, ea) := a in let (mb, eb) := b in
+  match BigZ.compare ea eb with
+  | Gt => (BigZ.add (BigZ.shiftl ma (BigZ.sub ea eb)) mb, eb)
+  | _ => (BigZ.add ma (BigZ.shiftl mb (BigZ.sub eb ea)), ea)
   end.
+Definition dy_opp (a : dy) : dy := (BigZ.opp (fst a), snd a).
+Definition dy_sub (a b : dy) : dy := dy_add a (dy_opp b).
+Definition dy_mul (a b : dy) : dy := (BigZ.mul (fst a) (fst b), BigZ.add (snd a) (snd b)).
+Definition dy_is_zero (a : dy) : bool := match BigZ.compare (fst a) 0 with Eq => true | _ => false end.
+Definition dy_inv (a : dy) : dy :=
+  let (m, e) := a in
+  if dy_is_zero a then dy0 else
+  let p := BigZ.add (BigZ.log2 (BigZ.abs m)) 256 in
+  (BigZ.div (BigZ.shiftl 1 p) m, BigZ.opp (BigZ.add e p)).
+Definition dy_sqrt (a : dy) : dy :=
+  let (m, e) := a in
+  let r := BigZ.modulo e 2 in
+  let m' := BigZ.shiftl m (BigZ.add r 512) in
+  (BigZ.sqrt m', BigZ.sub (BigZ.div (BigZ.sub e r) 2) 256).
+(* a <= b *)
+Definition dy_leb (a b : dy) : bool :=
+  match BigZ.compare (fst (dy_sub a b)) 0 with Gt => false | _ => true end.
+
+Definition CQ : Type := (dy * dy)%type.
+Definition cq0 : CQ := (dy0, dy0).
+Definition cq1 : CQ := (dy1, dy0).
+Definition cq_i : CQ := (dy0, dy1).
+Definition cq_add (a b : CQ) : CQ := (dy_add (fst a) (fst b), dy_add (snd a) (snd b)).
+Definition cq_sub (a b : CQ) : CQ := (dy_sub (fst a) (fst b), dy_sub (snd a) (snd b)).
+Definition cq_opp (a : CQ) : CQ := (dy_opp (fst a), dy_opp (snd a)).
+Definition cq_mul (a b : CQ) : CQ :=
+  if dy_is_zero (snd a) && dy_is_zero (snd b) then (dy_mul (fst a) (fst b), dy0) else
+  (dy_sub (dy_mul (fst a) (fst b)) (dy_mul (snd a) (snd b)),
+   dy_add (dy_mul (fst a) (snd b)) (dy_mul (snd a) (fst b))).
+Definition cq_inv (a : CQ) : CQ :=
+  let n := dy_add (dy_mul (fst a) (fst a)) (dy_mul (snd a) (snd a)) in
+  let i := dy_inv n in
+  (dy_mul (fst a) i, dy_opp (dy_mul (snd a) i)).
+Definition CQops : ops CQ := mk_ops cq0 cq1 cq_add cq_mul cq_sub cq_opp cq_inv.
+Definition cq_of (q : dy) : CQ := (q, dy0).
+Definition mkd (m e : Z) : dy := (BigZ.of_Z m, BigZ.of_Z e).
+
 Definition cq_dist (x y : vec3 CQ) : CQ :=
-  let d0 := BigQ.sub_norm (fst (vx x)) (fst (vx y)) in
-  let d1 := BigQ.sub_norm (fst (vy x)) (fst (vy y)) in
-  let d2 := BigQ.sub_norm (fst (vz x)) (fst (vz y)) in
-  cq_of (bq_sqrt (BigQ.add_norm (BigQ.add_norm (BigQ.mul_norm d0 d0) (BigQ.mul_norm d1 d1)) (BigQ.mul_norm d2 d2))).
+  let d0 := dy_sub (fst (vx x)) (fst (vx y)) in
+  let d1 := dy_sub (fst (vy x)) (fst (vy y)) in
+  let d2 := dy_sub (fst (vz x)) (fst (vz y)) in
+  cq_of (dy_sqrt (dy_add (dy_add (dy_mul d0 d0) (dy_mul d1 d1)) (dy_mul d2 d2))).
 
 (* ---- builders --------------------------------------------------------------------------------------- *)
 Section Build.
@@ -83,11 +106,9 @@ Definition surr_kernel {A} (RO : ops A) (s : surr A) : @kernel A := fun x y nx n
       (mul (add (dot (k_p s) ny) (dot (k_r s) nx)) (dot (k_d s) (vsub (osub RO) x y))).
 
 (* ---- comparison -------------------------------------------------------------------------------------- *)
-Definition bq_close (tol a b : bigQ) : bool :=
-  let d := BigQ.sub_norm a b in
-  match BigQ.compare d tol with Gt => false | _ =>
-    match BigQ.compare (BigQ.opp d) tol with Gt => false | _ => true end end.
-Definition cq_close (tol : bigQ) (a b : CQ) : bool := bq_close tol (fst a) (fst b) && bq_close tol (snd a) (snd b).
+Definition dy_close (tol a b : dy) : bool :=
+  let d := dy_sub a b in dy_leb d tol && dy_leb (dy_opp d) tol.
+Definition cq_close (tol : dy) (a b : CQ) : bool := dy_close tol (fst a) (fst b) && dy_close tol (snd a) (snd b).
 
 Fixpoint failing_idx {X Y} (ok : X -> Y -> bool) (n : nat) (l1 : list X) (l2 : list Y) : list nat :=
   match l1, l2 with
@@ -100,11 +121,10 @@ Fixpoint failing_idx {X Y} (ok : X -> Y -> bool) (n : nat) (l1 : list X) (l2 : l
 Definition dense_entries {A} (RO : ops A) (nr nc : nat) (ts : list (trip A)) : list A :=
   flat_map (fun I => map (fun J => entry (o0 RO) (oadd RO) I J ts) (seq 0 nc)) (seq 0 nr).
 
-Definition cmp_dense (tol : bigQ) (nr nc : nat) (ts : list (trip CQ)) (impl : list CQ) : list nat :=
+Definition cmp_dense (tol : dy) (nr nc : nat) (ts : list (trip CQ)) (impl : list CQ) : list nat :=
   failing_idx (cq_close tol) 0 (dense_entries CQops nr nc ts) impl.
-Definition cmp_list (tol : bigQ) (model impl : list CQ) : list nat := failing_idx (cq_close tol) 0 model impl.
+Definition cmp_list (tol : dy) (model impl : list CQ) : list nat := failing_idx (cq_close tol) 0 model impl.
 
 (* number of model entries that are not exactly zero (evidence: non-trivial outputs) *)
 Definition count_nonzero (l : list CQ) : nat :=
-  length (filter (fun a => negb (match BigQ.compare (fst a) 0 with Eq => true | _ => false end &&
-                                 match BigQ.compare (snd a) 0 with Eq => true | _ => false end)) l).
+  length (filter (fun a => negb (dy_is_zero (fst a) && dy_is_zero (snd a))) l).
